@@ -680,6 +680,19 @@ func runC07(c *Ctx) {
 		check([]string{"(*headerfs.filterHeaderStore).", fnNewF}, fsz)
 	})
 
+	c.rule("C07.V9", "lookups by hash and of the tip are answered from the database: the block and the filter header store each own a headerIndex over the SAME hash->height bucket (entries are added and removed through the block store only), so an answer one instance kept in memory is stale after the other rolled the bucket back: every successful return of headerIndex.heightFromHash and headerIndex.chainTip lies behind a walletdb.View transaction of that very call", func() {
+		view := c.funcObj("github.com/btcsuite/btcwallet/walletdb", "View")
+		upd := c.funcObj("github.com/btcsuite/btcwallet/walletdb", "Update")
+		for _, name := range []string{"(*headerfs.headerIndex).heightFromHash", "(*headerfs.headerIndex).chainTip"} {
+			fn := c.fn(name)
+			isOK := func(in ssa.Instruction) bool {
+				r, ok := in.(*ssa.Return)
+				return ok && errSuccess(r)
+			}
+			c.mustPrecede(fn, callTo(view, upd), "walletdb.View", isOK, "a successful return", 1)
+		}
+	})
+
 	c.rule("C07.V8", "a rollback removes exactly the n newest entries from the file too (the index moves back by n: a file that keeps them answers lookups above the tip, and the next append lands behind them): "+truncatesWholeRecordsDoc, func() { c.truncatesWholeRecords() })
 
 	c.rule("C07.V7", "a height beyond the tip is not found, however large: every offset and length handed to the flat file (File.ReadAt / WriteAt / Truncate / Seek) that is the product of a height or count and a record size is multiplied out in 64 bits; a 32-bit product wraps (height 2^27+k of the filter store, 2^28+k of the block store lands on the header at height k, and FetchHeaderByHeight returns it with a nil error where a plain list reports 'not found')", func() {
